@@ -12,6 +12,9 @@ func spoil(c *Chooser, r *RPCPlan, kind string) {
 	switch kind {
 	case "cut":
 		r.Client.Faults = []Fault{{Kind: Pick(c, "cut-eof", "cut-err"), At: c.Range(1, 30)}}
+		if !enveloped(r.Client.Form) && c.Bool() {
+			r.Client.DeclareCL = "none" // a body of unknown length is buffered to be measured
+		}
 	case "bad-validation":
 		r.Client.Timeout = "zz"
 	case "corrupt-compressed":
@@ -28,6 +31,9 @@ func spoil(c *Chooser, r *RPCPlan, kind string) {
 		if len(r.Client.Msgs) > 0 {
 			r.Client.Msgs[0].Data = bigMsg(3<<20, "zero", c)
 			r.Client.Deliveries, r.Backend.ReadSizes = nil, nil // megabytes one byte at a time only burn steps
+			if !enveloped(r.Client.Form) && c.Bool() {
+				r.Client.DeclareCL = "none"
+			}
 		}
 	case "backend-panic":
 		r.Backend.PanicAt = Pick(c, "before-headers", "after-headers", "mid-body")
@@ -35,6 +41,9 @@ func spoil(c *Chooser, r *RPCPlan, kind string) {
 		r.Client.WriterFailAfter = c.Range(1, 20)
 	case "backend-garbage":
 		genBackendMisbehaviour(c, &r.Backend.Resp)
+	case "end-garbage":
+		// the end of the stream (trailer frame, end-of-stream message) is where the adapters give buffers back
+		applyBackendMisbehaviour(c, &r.Backend.Resp, Pick(c, "end-garbage", "end-garbage", "flag-any", "omit-end"))
 	case "undecodable":
 		for i := range r.Client.Msgs {
 			r.Client.Msgs[i].RawPayload = c.Bytes(c.Range(1, 30))
@@ -50,7 +59,7 @@ func spoil(c *Chooser, r *RPCPlan, kind string) {
 	}
 }
 
-var spoilKinds = []string{"cut", "bad-validation", "corrupt-compressed", "over-limit", "backend-panic", "client-gone", "backend-garbage", "undecodable", "corrupt-response"}
+var spoilKinds = []string{"cut", "bad-validation", "corrupt-compressed", "over-limit", "backend-panic", "client-gone", "backend-garbage", "end-garbage", "undecodable", "corrupt-response"}
 
 // probeView is what is compared between the used and the fresh transcoder.
 func probeView(st *rpcState) string {
@@ -159,7 +168,7 @@ func init() {
 	register(&Check{
 		ID:    "C15",
 		Level: "exploration",
-		Rule: "one Transcoder and one set of pools; a drawn history of 0..20 earlier RPCs run to completion one after another (valid, failed validation, body cut mid-message, over the limit, corrupt compressed request, undecodable request, " +
+		Rule: "one Transcoder (the stream-shape service, in a third of the worlds also the REST-bound parameter service) and one set of pools; a drawn history of 0..20 earlier RPCs run to completion one after another (valid, failed validation, body cut mid-message, over the limit, corrupt compressed request, undecodable request, " +
 			"corrupt compressed response, protocol-breaking backend, backend panic, client gone mid-response) followed by a probe RPC; the same probe runs on a freshly built Transcoder. Pool policies are adversarial (most-recently-released first, " +
 			"random, fifo; released buffers keep poison as their stale content in most runs so that a missing reset hands recognisable garbage to the next user). oracle: canonical probe outcome and backend view are equal; no pool or compressor misuse. " +
 			"distinct = (history length, probe form>target/path, pool policy, schedule hash); non-trivial = the history is not empty",
@@ -171,9 +180,30 @@ func init() {
 				maxHist = 20
 			}
 			nh := Pick(c, 0, 1, 2, 3, c.Intn(maxHist+1))
+			cfg := ConfigPlan{Services: []ServicePlan{svc}}
+			// a third of the worlds also serve the REST-bound parameter service, and a few of its methods take part in the
+			// history and the probe (requests assembled from path, query and partial bodies rather than one whole message)
+			var restPool []restCase
+			if c.Prob(0.35) {
+				s2 := genService(c, "sim2")
+				s2.MaxMsg = 1 << 20
+				if c.Bool() {
+					s2.Codecs = nil
+				}
+				cfg.Services = append(cfg.Services, s2)
+				for i, n := 0, c.Range(1, 3); i < n; i++ {
+					restPool = append(restPool, restMethods[c.Intn(10)]) // the sim2 methods
+				}
+			}
+			draw := func() *RPCPlan {
+				if len(restPool) > 0 && c.Prob(0.6) {
+					return genRESTClientRPC(c, &cfg, restPool[c.Intn(len(restPool))])
+				}
+				return genRPC(c, ScenOpts{MaxMsgs: 3, MaxBytes: 400, Segment: true})
+			}
 			var rpcs []RPCPlan
 			for i := 0; i < nh; i++ {
-				r := genRPC(c, ScenOpts{MaxMsgs: 3, MaxBytes: 400, Segment: true})
+				r := draw()
 				if r == nil {
 					continue
 				}
@@ -182,7 +212,7 @@ func init() {
 				}
 				rpcs = append(rpcs, *r)
 			}
-			probe := genRPC(c, ScenOpts{MaxMsgs: 3, MaxBytes: 400, Segment: true})
+			probe := draw()
 			if probe == nil {
 				return nil
 			}
@@ -190,7 +220,7 @@ func init() {
 				spoil(c, probe, Pick(c, "corrupt-compressed", "undecodable", "backend-garbage", "corrupt-response"))
 			}
 			rpcs = append(rpcs, *probe)
-			return &Plan{Config: ConfigPlan{Services: []ServicePlan{svc}}, RPCs: rpcs, Sched: genSched(c),
+			return &Plan{Config: cfg, RPCs: rpcs, Sched: genSched(c),
 				Pool: PoolPlan{Policy: Pick(c, "lifo", "lifo", "random", "fifo"), Seed: c.Uint64(), Poison: c.Prob(0.6)}, StepCap: 400000}
 		},
 		Oracle:      c15Oracle,
